@@ -20,6 +20,7 @@ from twisted.internet.testing import MemoryReactorClock
 from twisted.python.failure import Failure
 
 from harness import clientfix, ref_message as RM, simnet
+from txdbus import error as E
 from txdbus import client as C
 from txdbus import interface as I
 from txdbus import introspection
@@ -485,6 +486,10 @@ def traffic_steps(rng, scenario_idx):
         elif r.random() < 0.3:
             steps.append(('cancel', {'idx': i}))      # the caller gives up on the call (Deferred.cancel)
     steps.append(('answer-introspection', {}))
+    if r.random() < 0.4:
+        # time passes: calls with a deadline of 5-8 s time out BEFORE the connection is lost (and are then no longer
+        # outstanding: the loss must neither fail them again nor stumble over what they left behind)
+        steps.append(('tick', {'dt': r.choice([5.5, 6.5, 9.0])}))
     r.shuffle(steps)
     return steps
 
@@ -645,6 +650,14 @@ def established_case(ctx, scenario_idx, lose_at, partial, case):
                 for m in peer.take():
                     if m.fields.get('member') == 'Introspect':
                         pending_introspect.append(m)
+            elif kind == 'tick':
+                try:
+                    clock.advance(a['dt'])
+                except Exception as e:
+                    ctx.report('timer-callback-raised', 'a deadline timer raised %r' % e, w, case)
+                ctx.count('deadlines_passed_before_loss', sum(1 for c_ in calls.values() if c_['o'].fired and
+                                                                 c_['o'].results[0][0] == 'err' and
+                                                                 isinstance(c_['o'].results[0][1].value, E.TimeOut)))
             elif kind == 'cancel':
                 c = calls.get(a['idx'])
                 if c and c['o'].fired == 0:
